@@ -95,6 +95,19 @@ def env():
                Contraction[typing.Union[ops.LogaddexpOp, ops.NullOp], ops.AddOp, frozenset, typing.Tuple[typing.Union[Tensor, Number], Gaussian]],
                ops.Op, ops.AssociativeOp, ops.AddOp, ops.BinaryOp, ops.UnaryOp, ops.NullOp, ops.LogaddexpOp]:
         add(tp)
+    # generated parametrisations: every parameter position unconstrained (object / Any), general or specific
+    params = [object, typing.Any, Funsor, Number, Variable, Tensor]
+    for o in (ops.AddOp, ops.Op):
+        for a, b in itertools.product(params, repeat=2):
+            add(Binary[o, a, b])
+    for a in params:
+        add(Unary[ops.NegOp, a])
+        add(Unary[object, a])
+        add(Reduce[ops.AddOp, a, frozenset])
+        add(Reduce[ops.AddOp, a, object])
+        add(Subs[a, tuple])
+        if a is not object:  # inside typing.Tuple the unconstrained parameter is spelled Any (a bare object is never normalised there)
+            add(Contraction[ops.NullOp, ops.AddOp, frozenset, typing.Tuple[a, Gaussian]])
     # registered signature components
     dispatchers = []
     for rname, reg in registries.items():
@@ -284,6 +297,65 @@ class C16(Prop):
     def describe(self, case):
         return str(case)
 
+    def check_variadic_history(self, case, stt):
+        """Signatures over wrapped (non-funsor) types with variadic tails on a fresh PartialDispatcher: the rule that runs
+        accepts the arguments and no other accepting rule has a strictly smaller set of accepted argument tuples."""
+        from funsor import Bint, ops
+        from funsor.registry import PartialDispatcher
+
+        r = random.Random(case["seed"] * 7 + 1)
+        Op = ops.Op
+        candidates = [(str, int), (str, [int]), (str, [object]), (str, tuple), (str, [tuple]), (str, Op), (str, [Op]), (int, int), (int, [int]), (str, int, int), (str, [str])]
+        probes = [("a", True), ("a", 1), ("a", 1, 2), ("a",), ("a", (1, 2)), ("a", "b"), (1, 2), (1, True), (True, True), ("a", ops.add), ("a", ops.add, ops.mul), ("a", True, False), ("a", 1, True), ("a", (1,), (2, 3))]
+
+        def accepts(sig, args):
+            fixed = [t for t in sig if not isinstance(t, list)]
+            var = sig[-1][0] if sig and isinstance(sig[-1], list) else None
+            if var is None:
+                return len(args) == len(fixed) and all(isinstance(a, t) for a, t in zip(args, fixed))
+            return len(args) >= len(fixed) and all(isinstance(a, t) for a, t in zip(args, fixed)) and all(isinstance(a, var) for a in args[len(fixed):])
+
+        disp = PartialDispatcher(name="verif")
+        chosen = r.sample(candidates, r.randint(2, 6))
+        rules = {}
+        for k, sig in enumerate(chosen):
+            def fn(*args, _sig=sig):
+                return _sig
+
+            fn.__name__ = f"rule_{k}"
+            disp.register(*sig)(fn)
+            rules[fn] = sig
+        hard = False
+        for _ in range(r.randint(4, 10)):
+            if r.random() < 0.15:
+                disp._cache.clear()
+                continue
+            args = r.choice(probes)
+            M = [f for f, sig in rules.items() if accepts(sig, args)]
+            try:
+                got = disp.partial_call(*args)
+            except NotImplementedError:
+                got = None
+            except Exception as ex:  # ambiguity warnings are not errors; anything else is a decline
+                raise Decline("variadic-dispatch-raised:" + type(ex).__name__)
+            if not M:
+                if got is not None and got in rules:
+                    raise Violation("variadic:rule-without-match", f"{rules[got]} ran for {args!r} which it does not accept; registered {chosen}")
+                continue
+            if got is None or got not in rules:
+                raise Violation("variadic:no-rule-although-patterns-match", f"{args!r}: {[rules[f] for f in M]} accept, dispatch found none; registered {chosen}")
+            if got not in M:
+                raise Violation("variadic:rule-does-not-match", f"{rules[got]} ran for {args!r}; accepting rules {[rules[f] for f in M]}")
+            acc = {f: frozenset(i for i, p in enumerate(probes) if accepts(rules[f], p)) for f in M}
+            better = [rules[f] for f in M if acc[f] < acc[got]]
+            if len(M) >= 2:
+                hard = True
+            if better:
+                raise Violation("variadic:not-most-specific", f"{rules[got]} ran for {args!r} although {better} accept(s) strictly fewer argument tuples; registered (in this order) {chosen}")
+        stt.count("variadic-history")
+        if hard:
+            stt.mark_nontrivial(case_hash(case))
+
     def check(self, case, stt):
         from funsor.registry import KeyedRegistry
         from funsor.terms import Binary, Funsor, Number, Reduce, Unary, Variable
@@ -291,6 +363,8 @@ class C16(Prop):
         e = env()
         if "pair" in case or "entry" in case:
             return self.replay_entry(case)
+        if case["seed"] % 3 == 0:
+            return self.check_variadic_history(case, stt)
         r = random.Random(case["seed"])
         default = lambda *args: None  # noqa: E731
         reg = KeyedRegistry(default=default)
